@@ -115,7 +115,7 @@ def check(ctx):
 
     # ---- C05.c every end releases ----
     trackers = A.tracker_types(prog)
-    rel = ctx.anchor("C05.c", lambda: A.free_fn(prog, "try_cleanup_data_entity"), "release helper")
+    rel = ctx.anchor("C05.c", lambda: A.release_helper(prog), "release helper")
     n_end_uses = 0
     for ty in sorted(trackers):
         tname = ty.split("::")[-1]
@@ -153,7 +153,7 @@ def check(ctx):
             ok = bool(arms) and all(rel.dominates(arms[0][1], d) for d in desp) and rel.dominates(dec[0], done[0])
             for d in desp:
                 ok = ok and lib.originates_from_arg(rel, rel.blocks[d]["term"]["args"][1], 2)
-        ctx.check(ok, "C05.c", "try_cleanup_data_entity:decrement-then-despawn-if-done", "%s:%d" % (rel.file, rel.line),
+        ctx.check(ok, "C05.c", "release-helper:decrement-then-despawn-if-done", "%s:%d" % (rel.file, rel.line),
                   "decrement, then despawn the same entity only on the is_done() arm",
                   "release helper does not decrement then despawn its entity only when the count reached zero")
         try:
